@@ -380,3 +380,87 @@ Definition parse (multi : bool) (argv : list str) : res (option expr) :=
   end.
 
 End Parser.
+
+(* ---- specification side: query trees, their intended expression, and how they are written ----
+   A query tree is written one token per argument, with the parentheses the documented
+   precedence (not > and > or > juxtaposition, all left-associative) requires and no others;
+   `sp` picks the spelling of an operator or field selector (word / symbol). *)
+Inductive qfield : Type := QAccount | QPayee | QCode | QNote.
+
+Inductive query : Type :=
+| QTerm (f : qfield) (sp : bool) (pat : str)
+| QNot  (sp : bool) (q : query)
+| QAnd  (sp : bool) (a b : query)
+| QOr   (sp : bool) (a b : query)
+| QJux  (a b : query).                 (* juxtaposition: a b *)
+
+Definition fid (f : qfield) : ident :=
+  match f with QAccount => IAccount | QPayee => IPayee | QCode => ICode | QNote => INote end.
+
+Fixpoint to_expr (q : query) : expr :=
+  match q with
+  | QTerm f _ p => EMatch (EIdent (fid f)) p
+  | QNot _ a => ENot (to_expr a)
+  | QAnd _ a b => EAnd (to_expr a) (to_expr b)
+  | QOr _ a b => EOr (to_expr a) (to_expr b)
+  | QJux a b => EOr (to_expr a) (to_expr b)
+  end.
+
+Definition stok : Type := (tok * bool)%type.
+
+Definition wrap (b : bool) (l : list stok) : list stok :=
+  if b then (TLParen, false) :: l ++ [(TRParen, false)] else l.
+
+Definition sel (f : qfield) : tok :=
+  match f with QAccount => TAccount | QPayee => TPayee | QCode => TCode | QNote => TNote end.
+
+(* lvl: 0 juxtaposition sequence, 1 or-expression, 2 and-expression, 3 unary, 4 term *)
+Fixpoint tr (lvl : nat) (q : query) : list stok :=
+  match q with
+  | QTerm QAccount _ p => [(TTerm p, false)]
+  | QTerm f sp p => [(sel f, sp); (TTerm p, false)]
+  | QNot sp a => wrap (3 <? lvl)%nat ((TNot, sp) :: tr 4 a)
+  | QAnd sp a b => wrap (2 <? lvl)%nat (tr 2 a ++ (TAnd, sp) :: tr 3 b)
+  | QOr sp a b => wrap (1 <? lvl)%nat (tr 1 a ++ (TOr, sp) :: tr 2 b)
+  | QJux a b => wrap (0 <? lvl)%nat (tr 0 a ++ tr 1 b)
+  end.
+
+(* how a token is spelled as one command-line argument *)
+Definition spell (t : stok) : str :=
+  match t with
+  | (TLParen, _) => [40]
+  | (TRParen, _) => [41]
+  | (TNot, sp) => if sp then [33] else kw_not
+  | (TAnd, sp) => if sp then [38] else kw_and
+  | (TOr, sp) => if sp then [124] else kw_or
+  | (TPayee, sp) => if sp then [64] else kw_payee
+  | (TCode, sp) => if sp then [35] else kw_code
+  | (TNote, sp) => if sp then [61] else kw_note
+  | (TTerm w, _) => w
+  | _ => []
+  end.
+
+Definition render (q : query) : list str := map spell (tr 0 q).
+
+(* a pattern that can be written bare: no white space, quote, operator or escape byte, and
+   not a reserved word *)
+Definition plainb (c : Z) : bool :=
+  negb (is_quote c) && negb (is_ws c) && negb (is_delim c) &&
+  negb (c =? 0) && negb (c =? 41) && negb (c =? 92).
+
+Definition is_kw (s : str) : bool :=
+  str_eqb s kw_and || str_eqb s kw_or || str_eqb s kw_not || str_eqb s kw_code ||
+  str_eqb s kw_desc || str_eqb s kw_payee || str_eqb s kw_note || str_eqb s kw_tag ||
+  str_eqb s kw_meta || str_eqb s kw_data || str_eqb s kw_show || str_eqb s kw_only ||
+  str_eqb s kw_bold || str_eqb s kw_for || str_eqb s kw_since || str_eqb s kw_until ||
+  str_eqb s kw_expr.
+
+Definition word_ok (w : str) : bool :=
+  match w with [] => false | _ => forallb plainb w && negb (is_kw w) end.
+
+Fixpoint query_ok (q : query) : bool :=
+  match q with
+  | QTerm _ _ p => word_ok p
+  | QNot _ a => query_ok a
+  | QAnd _ a b | QOr _ a b | QJux a b => query_ok a && query_ok b
+  end.
